@@ -81,10 +81,16 @@ CLAIMED = {
    text="Lean theorems (Echse.Props.C02) about the transcribed model of next_evfilt/make_evfilt: for sorted occurrence and "
         "exception lists of any length and any duration the filter delivers exactly the occurrences whose start equals no "
         "exception start, under any peek/pop script (refinement to List.filter; loop bound proved). Combined with C03 this "
-        "is (RRULE u RDATE) minus (EXRULE u EXDATE). Real filter objects over muxes are compared with the model and with the set "
-        "expression in the harness, including zero durations, near misses inside a duration and runs of exceptions.",
-   note="Trusted: Lean kernel, harness hx_strm.c. The parser's assembly of the four lists (make_task) is exercised by C01/C05's "
-        "checks, not here. evfilt.c was repaired (start equality instead of strict range overlap).",
+        "is (RRULE u RDATE) minus (EXRULE u EXDATE). The RDATE / EXDATE lists as one stream (__make_evrdat, transcribed as "
+        "Echse.Model.Evrdat over the WikiSort model): for lists shorter than 1024 the stream holds exactly the listed instants (a "
+        "DATE taking DTSTART's time of day), strictly ascending, each once (rdate_members, rdate_ascending, rdate_nodup). Real filter "
+        "objects over muxes are compared with the model and with the set expression in the harness, including zero durations, near "
+        "misses inside a duration and runs of exceptions; __make_evrdat is compared call by call; calendars with 0-3 RRULEs, RDATE "
+        "lines (repeats, several lines), EXRULEs and EXDATE lines go through the whole parser and their first 60 occurrences are "
+        "compared with the set expression over the RFC reference expansions of the single rules.",
+   note="Trusted: Lean kernel, harness hx_strm.c, vlib/rfc5545.py for the single rules' instances (C01). The cloning / ownership of "
+        "the constituent streams in make_task is exercised, not modelled. evfilt.c was repaired (start equality instead of strict "
+        "range overlap), __make_evrdat too (repeats dropped).",
    technique="Lean 4 proof (refinement of the two-pointer walk to a list filter) + differential correspondence check",
    design="§5 C02"),
  "C07": dict(
